@@ -237,6 +237,23 @@ func (algo SignatureAlgorithm) isRSAPSS() bool {
 	}
 }
 
+// keyAlgo returns the public key algorithm that signatures of type algo are
+// made with, or UnknownPublicKeyAlgorithm.
+func (algo SignatureAlgorithm) keyAlgo() PublicKeyAlgorithm {
+	switch algo {
+	case MD2WithRSA, MD5WithRSA, SHA1WithRSA, SHA256WithRSA, SHA384WithRSA, SHA512WithRSA,
+		SHA256WithRSAPSS, SHA384WithRSAPSS, SHA512WithRSAPSS:
+		return RSA
+	case DSAWithSHA1, DSAWithSHA256:
+		return DSA
+	case ECDSAWithSHA1, ECDSAWithSHA256, ECDSAWithSHA384, ECDSAWithSHA512:
+		return ECDSA
+	case Ed25519Sig:
+		return Ed25519
+	}
+	return UnknownPublicKeyAlgorithm
+}
+
 var algoName = [...]string{
 	MD2WithRSA:       "MD2-RSA",
 	MD5WithRSA:       "MD5-RSA",
@@ -1097,14 +1114,24 @@ func CheckSignatureFromKey(publicKey interface{}, algo SignatureAlgorithm, signe
 	}
 	digest := hash(hashType, signed)
 
+	// The signature algorithm must be one for the type of key at hand.
+	pubKeyAlgo := algo.keyAlgo()
+	errKeyMismatch := errors.New("x509: signature algorithm does not match the type of the public key")
+
 	switch pub := publicKey.(type) {
 	case *rsa.PublicKey:
+		if pubKeyAlgo != RSA {
+			return errKeyMismatch
+		}
 		if algo.isRSAPSS() {
 			return rsa.VerifyPSS(pub, hashType, digest, signature, &rsa.PSSOptions{SaltLength: rsa.PSSSaltLengthEqualsHash})
 		} else {
 			return rsa.VerifyPKCS1v15(pub, hashType, digest, signature)
 		}
 	case *dsa.PublicKey:
+		if pubKeyAlgo != DSA {
+			return errKeyMismatch
+		}
 		dsaSig := new(dsaSignature)
 		if rest, err := asn1.Unmarshal(signature, dsaSig); err != nil {
 			return err
@@ -1119,6 +1146,9 @@ func CheckSignatureFromKey(publicKey interface{}, algo SignatureAlgorithm, signe
 		}
 		return
 	case *ecdsa.PublicKey:
+		if pubKeyAlgo != ECDSA {
+			return errKeyMismatch
+		}
 		ecdsaSig := new(ecdsaSignature)
 		if rest, err := asn1.Unmarshal(signature, ecdsaSig); err != nil {
 			return err
@@ -1133,6 +1163,9 @@ func CheckSignatureFromKey(publicKey interface{}, algo SignatureAlgorithm, signe
 		}
 		return
 	case *AugmentedECDSA:
+		if pubKeyAlgo != ECDSA {
+			return errKeyMismatch
+		}
 		ecdsaSig := new(ecdsaSignature)
 		if _, err := asn1.Unmarshal(signature, ecdsaSig); err != nil {
 			return err
@@ -1145,6 +1178,9 @@ func CheckSignatureFromKey(publicKey interface{}, algo SignatureAlgorithm, signe
 		}
 		return
 	case ed25519.PublicKey:
+		if pubKeyAlgo != Ed25519 {
+			return errKeyMismatch
+		}
 		if !ed25519.Verify(pub, digest, signature) {
 			return errors.New("x509: Ed25519 verification failure")
 		}
